@@ -1,3 +1,436 @@
 package main
 
-func tablesFacts(l *loader, out string, all map[string]any) {}
+import (
+	"encoding/json"
+	"fmt"
+	"go/ast"
+	"go/constant"
+	"go/token"
+	"go/types"
+	"os"
+	"path/filepath"
+	"sort"
+	"strings"
+)
+
+func tablesFacts(l *loader, out string, all map[string]any) {
+	allowedFacts(l, out, all)
+	factoryFacts(l, out, all)
+	accessorFacts(l, out, all)
+}
+
+// ---- allowed attributes (C17) -------------------------------------------------------------------
+func allowedFacts(l *loader, out string, all map[string]any) {
+	raw, err := os.ReadFile(filepath.Join(l.root, "mjml/components/allowed-css-attributes.json"))
+	if err != nil {
+		fmt.Fprintln(os.Stderr, err)
+		os.Exit(1)
+	}
+	table := map[string]map[string]string{}
+	if err := json.Unmarshal(raw, &table); err != nil {
+		fmt.Fprintln(os.Stderr, err)
+		os.Exit(1)
+	}
+	// global names and prefixes from the source of allowed_attributes.go
+	var globalNames, prefixes []string
+	p := modPath + "/mjml/components"
+	info := l.infos[p]
+	for _, f := range l.files[p] {
+		ast.Inspect(f, func(n ast.Node) bool {
+			switch x := n.(type) {
+			case *ast.ValueSpec:
+				for i, name := range x.Names {
+					if name.Name == "globalAllowedAttributes" && i < len(x.Values) {
+						if cl, ok := x.Values[i].(*ast.CompositeLit); ok {
+							for _, el := range cl.Elts {
+								if kv, ok := el.(*ast.KeyValueExpr); ok {
+									if tv, ok := info.Types[kv.Key]; ok && tv.Value != nil {
+										globalNames = append(globalNames, constant.StringVal(tv.Value))
+									}
+								}
+							}
+						}
+					}
+				}
+			case *ast.FuncDecl:
+				if x.Name.Name == "isGloballyAllowedAttribute" {
+					ast.Inspect(x.Body, func(m ast.Node) bool {
+						if c, ok := m.(*ast.CallExpr); ok {
+							if sel, ok := c.Fun.(*ast.SelectorExpr); ok && sel.Sel.Name == "HasPrefix" && len(c.Args) == 2 {
+								if tv, ok := info.Types[c.Args[1]]; ok && tv.Value != nil {
+									prefixes = append(prefixes, constant.StringVal(tv.Value))
+								}
+							}
+						}
+						return true
+					})
+				}
+			}
+			return true
+		})
+	}
+	sort.Strings(globalNames)
+	sort.Strings(prefixes)
+	var sb strings.Builder
+	sb.WriteString(header)
+	sb.WriteString("Definition allowed_table : list (string * list string) := [\n")
+	var tags []string
+	for t := range table {
+		tags = append(tags, t)
+	}
+	sort.Strings(tags)
+	for i, t := range tags {
+		var names []string
+		for a := range table[t] {
+			names = append(names, a)
+		}
+		sort.Strings(names)
+		if i > 0 {
+			sb.WriteString(";\n")
+		}
+		fmt.Fprintf(&sb, "  (%s, %s)", coqStr(t), coqStrList(names))
+	}
+	sb.WriteString("].\n")
+	fmt.Fprintf(&sb, "Definition global_names : list string := %s.\n", coqStrList(globalNames))
+	fmt.Fprintf(&sb, "Definition global_prefixes : list string := %s.\n", coqStrList(prefixes))
+	writeFile(out, "Allowed.v", sb.String())
+	all["allowed_table"] = table
+	all["global_names"] = globalNames
+	all["global_prefixes"] = prefixes
+}
+
+// ---- factory (C04, C17): which tags CreateComponent constructs, which constructors validate -----
+func factoryFacts(l *loader, out string, all map[string]any) {
+	p := modPath + "/mjml"
+	info := l.infos[p]
+	var tags []string
+	for _, f := range l.files[p] {
+		for _, d := range f.Decls {
+			fd, ok := d.(*ast.FuncDecl)
+			if !ok || fd.Name.Name != "CreateComponent" || fd.Body == nil {
+				continue
+			}
+			ast.Inspect(fd.Body, func(n ast.Node) bool {
+				if sw, ok := n.(*ast.SwitchStmt); ok {
+					if id, ok := sw.Tag.(*ast.Ident); ok && id.Name == "tagName" {
+						for _, c := range sw.Body.List {
+							for _, e := range c.(*ast.CaseClause).List {
+								if tv, ok := info.Types[e]; ok && tv.Value != nil {
+									tags = append(tags, constant.StringVal(tv.Value))
+								}
+							}
+						}
+					}
+				}
+				return true
+			})
+		}
+	}
+	sort.Strings(tags)
+	// constructors that do not go through NewBaseComponent (and hence never validate)
+	cp := modPath + "/mjml/components"
+	var noBase []string
+	for _, f := range l.files[cp] {
+		for _, d := range f.Decls {
+			fd, ok := d.(*ast.FuncDecl)
+			if !ok || fd.Body == nil || fd.Recv != nil || !strings.HasPrefix(fd.Name.Name, "NewMJ") {
+				continue
+			}
+			calls := false
+			ast.Inspect(fd.Body, func(n ast.Node) bool {
+				if c, ok := n.(*ast.CallExpr); ok {
+					if id, ok := c.Fun.(*ast.Ident); ok && id.Name == "NewBaseComponent" {
+						calls = true
+					}
+				}
+				return true
+			})
+			if !calls {
+				noBase = append(noBase, fd.Name.Name)
+			}
+		}
+	}
+	sort.Strings(noBase)
+	// does NewBaseComponent call the validation hook?
+	validates := false
+	for _, f := range l.files[cp] {
+		for _, d := range f.Decls {
+			if fd, ok := d.(*ast.FuncDecl); ok && fd.Name.Name == "NewBaseComponent" && fd.Body != nil {
+				ast.Inspect(fd.Body, func(n ast.Node) bool {
+					if c, ok := n.(*ast.CallExpr); ok {
+						if id, ok := c.Fun.(*ast.Ident); ok && id.Name == "validateComponentAttributes" {
+							validates = true
+						}
+					}
+					return true
+				})
+			}
+		}
+	}
+	var sb strings.Builder
+	sb.WriteString(header)
+	fmt.Fprintf(&sb, "Definition factory_tags : list string := %s.\n", coqStrList(tags))
+	fmt.Fprintf(&sb, "Definition constructors_without_base : list string := %s.\n", coqStrList(noBase))
+	fmt.Fprintf(&sb, "Definition base_constructor_validates : bool := %v.\n", validates)
+	writeFile(out, "Factory.v", sb.String())
+	all["factory_tags"] = tags
+	all["constructors_without_base"] = noBase
+	all["base_constructor_validates"] = validates
+}
+
+// ---- attribute accessors and defaults (C09, C11, C12) ---------------------------------------------
+type accSite struct {
+	File string `json:"file"`
+	Line int    `json:"line"`
+	Comp string `json:"comp"` // receiver component type of the enclosing method
+	Attr string `json:"attr"` // "?" when not a constant
+	Kind string `json:"kind"` // Full | Fast | NoGlobal | NodeOnly | Wrapper:<name> | AttrsMap
+	Func string `json:"func"`
+}
+
+func recvTypeName(fd *ast.FuncDecl) string {
+	if fd == nil || fd.Recv == nil || len(fd.Recv.List) == 0 {
+		return ""
+	}
+	t := fd.Recv.List[0].Type
+	if s, ok := t.(*ast.StarExpr); ok {
+		t = s.X
+	}
+	if id, ok := t.(*ast.Ident); ok {
+		return id.Name
+	}
+	return ""
+}
+
+func accessorFacts(l *loader, out string, all map[string]any) {
+	cp := modPath + "/mjml/components"
+	info := l.infos[cp]
+	var sites []accSite
+	// forwarding wrappers: func (c *X) getAttribute(name string) string { return c.<accessor>(..., name) }
+	wrappers := map[string]string{} // "X.getAttribute" -> kind
+	kindOf := func(method string, recv types.Type) string {
+		switch method {
+		case "GetAttributeWithDefault":
+			return "Full"
+		case "GetAttributeFast":
+			return "Fast"
+		case "GetAttribute":
+			if recv != nil && strings.Contains(recv.String(), "parser.MJMLNode") {
+				return "NodeOnly"
+			}
+			return "NoGlobal"
+		}
+		return ""
+	}
+	// custom accessors: a method with a single string parameter that forwards it as the attribute name to
+	// one or more accessors; its kind is the weakest of those (NodeOnly < NoGlobal < Full). Iterated to a
+	// fixpoint so that wrappers of wrappers are resolved.
+	weaker := func(a, b string) string {
+		rank := map[string]int{"NodeOnly": 0, "NoGlobal": 1, "Fast": 2, "Full": 2}
+		if a == "" {
+			return b
+		}
+		if rank[b] < rank[a] {
+			return b
+		}
+		return a
+	}
+	for round := 0; round < 3; round++ {
+		for _, f := range l.files[cp] {
+			for _, d := range f.Decls {
+				fd, ok := d.(*ast.FuncDecl)
+				if !ok || fd.Body == nil || fd.Recv == nil || fd.Type.Params == nil {
+					continue
+				}
+				// exactly one parameter of type string (possibly after others? keep it strict: last parameter)
+				pl := fd.Type.Params.List
+				if len(pl) == 0 || len(pl[len(pl)-1].Names) != 1 {
+					continue
+				}
+				pname := pl[len(pl)-1].Names[0]
+				if t := info.TypeOf(pl[len(pl)-1].Type); t == nil || t.String() != "string" {
+					continue
+				}
+				pobj := info.Defs[pname]
+				own := recvTypeName(fd) + "." + fd.Name.Name
+				if own == "BaseComponent.GetAttributeWithDefault" || own == "BaseComponent.GetAttributeFast" || own == "BaseComponent.GetAttribute" {
+					continue
+				}
+				kind := ""
+				ast.Inspect(fd.Body, func(n ast.Node) bool {
+					call, ok := n.(*ast.CallExpr)
+					if !ok || len(call.Args) == 0 {
+						return true
+					}
+					sel, ok := call.Fun.(*ast.SelectorExpr)
+					if !ok {
+						return true
+					}
+					last, ok := call.Args[len(call.Args)-1].(*ast.Ident)
+					if !ok || info.Uses[last] != pobj {
+						return true
+					}
+					k := kindOf(sel.Sel.Name, info.TypeOf(sel.X))
+					if k == "" {
+						if rt := info.TypeOf(sel.X); rt != nil {
+							name := rt.String()
+							name = name[strings.LastIndex(name, ".")+1:]
+							k = wrappers[name+"."+sel.Sel.Name]
+						}
+					}
+					if k != "" {
+						kind = weaker(kind, k)
+					}
+					return true
+				})
+				if kind != "" {
+					wrappers[own] = kind
+				}
+			}
+		}
+	}
+	for _, f := range l.files[cp] {
+		ast.Inspect(f, func(n ast.Node) bool {
+			call, ok := n.(*ast.CallExpr)
+			if !ok {
+				return true
+			}
+			sel, ok := call.Fun.(*ast.SelectorExpr)
+			if !ok || len(call.Args) == 0 {
+				return true
+			}
+			fd := enclosing(f, call.Pos())
+			comp := recvTypeName(fd)
+			fn := ""
+			if fd != nil {
+				fn = funcName(fd)
+			}
+			kind := kindOf(sel.Sel.Name, info.TypeOf(sel.X))
+			if kind == "" {
+				// call of a forwarding wrapper?
+				rt := info.TypeOf(sel.X)
+				if rt != nil {
+					name := rt.String()
+					name = name[strings.LastIndex(name, ".")+1:]
+					if k, ok := wrappers[name+"."+sel.Sel.Name]; ok {
+						kind = k
+						if comp == "" {
+							comp = name
+						}
+					}
+				}
+			}
+			if kind == "" {
+				return true
+			}
+			if fd != nil && wrappers[comp+"."+fd.Name.Name] != "" {
+				return true // the wrapper's own body
+			}
+			// which component does the accessed object belong to? (a method of X reading c.Parent... is rare; use the receiver type of sel.X when it is a component)
+			if rt := info.TypeOf(sel.X); rt != nil {
+				name := rt.String()
+				name = name[strings.LastIndex(name, ".")+1:]
+				if strings.HasPrefix(name, "MJ") && strings.HasSuffix(name, "Component") {
+					comp = name
+				}
+			}
+			arg := call.Args[len(call.Args)-1]
+			attr := "?"
+			if tv, ok := info.Types[arg]; ok && tv.Value != nil && tv.Value.Kind() == constant.String {
+				attr = constant.StringVal(tv.Value)
+			}
+			file, line := l.pos(call.Pos())
+			sites = append(sites, accSite{file, line, comp, attr, kind, fn})
+			return true
+		})
+	}
+	// defaults: switch name { case "a": return "lit" } in GetDefaultAttribute methods
+	type def struct {
+		Comp string `json:"comp"`
+		Attr string `json:"attr"`
+		Val  string `json:"val"`
+		Dyn  bool   `json:"dynamic"`
+	}
+	var defs []def
+	tagOf := map[string]string{} // component type -> tag (from GetTagName methods returning a literal)
+	for _, f := range l.files[cp] {
+		for _, d := range f.Decls {
+			fd, ok := d.(*ast.FuncDecl)
+			if !ok || fd.Body == nil || fd.Recv == nil {
+				continue
+			}
+			if fd.Name.Name == "GetTagName" && len(fd.Body.List) == 1 {
+				if r, ok := fd.Body.List[0].(*ast.ReturnStmt); ok && len(r.Results) == 1 {
+					if tv, ok := info.Types[r.Results[0]]; ok && tv.Value != nil {
+						tagOf[recvTypeName(fd)] = constant.StringVal(tv.Value)
+					}
+				}
+			}
+			if fd.Name.Name != "GetDefaultAttribute" {
+				continue
+			}
+			ast.Inspect(fd.Body, func(n ast.Node) bool {
+				sw, ok := n.(*ast.SwitchStmt)
+				if !ok {
+					return true
+				}
+				for _, c := range sw.Body.List {
+					cc := c.(*ast.CaseClause)
+					for _, e := range cc.List {
+						tv, ok := info.Types[e]
+						if !ok || tv.Value == nil {
+							continue
+						}
+						name := constant.StringVal(tv.Value)
+						dv := def{Comp: recvTypeName(fd), Attr: name, Dyn: true}
+						if len(cc.Body) == 1 {
+							if r, ok := cc.Body[0].(*ast.ReturnStmt); ok && len(r.Results) == 1 {
+								if rv, ok := info.Types[r.Results[0]]; ok && rv.Value != nil && rv.Value.Kind() == constant.String {
+									dv.Val, dv.Dyn = constant.StringVal(rv.Value), false
+								}
+							}
+						}
+						defs = append(defs, dv)
+					}
+				}
+				return false
+			})
+		}
+	}
+	sort.Slice(sites, func(i, j int) bool {
+		if sites[i].File != sites[j].File {
+			return sites[i].File < sites[j].File
+		}
+		return sites[i].Line < sites[j].Line
+	})
+	var sb strings.Builder
+	sb.WriteString(header)
+	sb.WriteString("Inductive akind := Full | Fast | NoGlobal | NodeOnly.\n")
+	sb.WriteString("Record acc_site := { as_file : string ; as_line : N ; as_comp : string ; as_attr : string ; as_kind : akind }.\n")
+	sb.WriteString("Definition acc_sites : list acc_site := [\n")
+	for i, s := range sites {
+		if i > 0 {
+			sb.WriteString(";\n")
+		}
+		fmt.Fprintf(&sb, "  {| as_file := %s ; as_line := %d ; as_comp := %s ; as_attr := %s ; as_kind := %s |}", coqStr(s.File), s.Line, coqStr(s.Comp), coqStr(s.Attr), s.Kind)
+	}
+	sb.WriteString("].\n")
+	sb.WriteString("Definition comp_tags : list (string * string) := [\n")
+	var comps []string
+	for c := range tagOf {
+		comps = append(comps, c)
+	}
+	sort.Strings(comps)
+	for i, c := range comps {
+		if i > 0 {
+			sb.WriteString(";\n")
+		}
+		fmt.Fprintf(&sb, "  (%s, %s)", coqStr(c), coqStr(tagOf[c]))
+	}
+	sb.WriteString("].\n")
+	writeFile(out, "Accessors.v", sb.String())
+	all["acc_sites"] = sites
+	all["defaults"] = defs
+	all["comp_tags"] = tagOf
+	_ = token.NoPos
+}
